@@ -1,6 +1,6 @@
 SPECIFICATION Spec
 CONSTANTS MaxLen = 2 MaxN = 11 Infinite = FALSE MaxOut = 100
-  Vals = "special" Stops = FALSE MaxRuns = 1
+  Vals = "special" Stops = FALSE MaxRuns = 1 MaxLead = 0
   Alphabet <- AlphaVals
   Must <- NoMust
   Pairs <- OnlyBare
